@@ -88,12 +88,20 @@ def mtreeLine (m : SMember) : Bytes :=
    else toOct m.mode ++ b!" size=" ++ natToDec m.bodyLen ++ b!" type=file md5digest=" ++ hexOf m.md5
         ++ b!" sha256digest=" ++ hexOf m.sha256 ++ [nl])
 
+/-- the path an mtree(5) reader takes from a line: the first word, without "./", unquoted -/
+def mtreePathOf (line : Bytes) : Bytes := mtreeUnesc ((line.takeWhile (· != 0x20)).drop 2)
+
+/-- the paths of a .MTREE file read line by line, after the "#mtree" header -/
+def mtreePaths (mtree : Bytes) : List Bytes := (((splitOn nl mtree).drop 1).dropLast).map mtreePathOf
+
 /-- archlinux .MTREE: header, .PKGINFO first, then one line per payload member in archive order -/
 def expMtree (payload : List SMember) (pkginfo : SMember) : Bytes :=
   b!"#mtree\n" ++ mtreeLine pkginfo ++ payload.flatMap mtreeLine
 
 def checkArch (payload : List SMember) (pkginfo : SMember) (mtree : Bytes) (size : Option Bytes) : List String :=
   (if mtree = expMtree payload pkginfo then [] else ["mtree-differs"])
+  -- independent of the rendering: what a line-oriented mtree(5) reader finds must be the shipped members, by name
+  ++ (if mtreePaths mtree = pkginfo.name :: payload.map (·.name) then [] else ["mtree-paths-do-not-read-back"])
   ++ (if size = some (natToDec (payloadBytes payload)) then [] else ["size-differs"])
   ++ sizesConsistent (pkginfo :: payload)
 
